@@ -913,7 +913,12 @@ class MacroProgram(ElementProgram):
             if name is not None:
                 # If translation is required, wrap in a translation
                 # clause
-                if msgid is not missing:
+                # (an empty static value without a message id of its
+                # own is not a message, like empty element content)
+                if msgid is not missing and not (
+                    not msgid and isinstance(value, ast.Constant)
+                    and value.value == ''
+                ):
                     value = nodes.Translate(msgid, value)
 
                 space = self._maybe_trim(space)
